@@ -11,7 +11,7 @@ git -C /repo worktree add --detach $wt HEAD >/dev/null 2>&1 || { echo "CONFIRM $
 trap 'git -C /repo worktree remove --force '$wt' >/dev/null 2>&1; rm -rf '$wt'' EXIT
 cd $wt
 if ! git apply --check $src/patch.diff 2>/dev/null; then echo "CONFIRM $id: patch does not apply"; exit 2; fi
-if git apply --numstat $src/patch.diff | awk '{print $3}' | grep -qv '^src/'; then echo "CONFIRM $id: patch touches files outside src/"; exit 2; fi
+if git apply --numstat $src/patch.diff | awk '{print $3}' | grep -Eqv '^(src|ffi/src)/'; then echo "CONFIRM $id: patch touches files outside src/"; exit 2; fi
 cp $src/demo.rs tests/seed_demo.rs
 a=$(cargo test --offline --test seed_demo 2>&1 | grep -E '^test result' | tr '\n' ' ')
 case "$a" in *"0 failed"*) ;; *) echo "CONFIRM $id: demo does not pass on the unchanged tree: $a"; exit 2;; esac
